@@ -156,6 +156,17 @@ func checkC06Required(c *Ctx, n int) {
 		for j := 0; j < k; j++ {
 			argv = append(argv, "1")
 		}
+		// while a trailing slice of strings collects the words, a word that spells a subcommand of the
+		// active command is one more value: it counts towards the constraint, it does not end the list
+		if len(args) > 0 && k >= len(args)-1 && len(active.Commands()) > 0 && r.Intn(2) == 0 {
+			if fr, ok := real.fields[args[len(args)-1].Name]; ok && fr.code == "Lstr" {
+				sub := active.Commands()[r.Intn(len(active.Commands()))]
+				if typableWord(sub.Name) {
+					argv = append(argv, sub.Name)
+					k++
+				}
+			}
+		}
 		// what must happen
 		var missing []string
 		for _, cmd := range chain {
